@@ -56,4 +56,7 @@ def check(ctx) -> Result:
     unpack = {src(a.targets[0]).strip("()"): src(a.value) for a in walk_no_nested(ini.node) if isinstance(a, ast.Assign)}
     okm = len(ms) == 1 and src(ms[0].args[0]).replace(" ", "") == "{a0:b0,b0:a0,a1:b1,b1:a1}" and unpack.get("a0, a1") == "qubit_1" and unpack.get("b0, b1") == "qubit_2"
     res.add(okm, "K-swap-rails", "SWAP", ini.site(), ini.qualname, "rail k of qubit 1 is exchanged with rail k of qubit 2", "SWAP does not exchange equal rails of the two qubits", construct=src(ms[0].args[0]) if ms else "")
+    from ..rules import rz_falsy
+    nz = rz_falsy.none_checks(ctx, res, "C13", ())
+    res.floor("Z functions scanned", nz, 3)
     return res
